@@ -287,7 +287,44 @@ func (u *Universe) typeID(t types.Type) int {
 	return id
 }
 
+// structCanon: package-level name of a struct type, by identity of the underlying *types.Struct. A function-local
+// `type Alias OperationProps` shares its underlying struct with OperationProps: both get the same sort, field-address
+// functions and heap partitions (a pointer conversion between them is the identity).
+var structCanon = map[*types.Struct]string{}
+
+func registerStructs(pkg *types.Package) {
+	sc := pkg.Scope()
+	for _, name := range sc.Names() {
+		tn, ok := sc.Lookup(name).(*types.TypeName)
+		if !ok || tn.IsAlias() {
+			continue
+		}
+		n, ok := tn.Type().(*types.Named)
+		if !ok {
+			continue
+		}
+		if st, ok := n.Underlying().(*types.Struct); ok {
+			if _, dup := structCanon[st]; !dup {
+				structCanon[st] = structName0(n)
+			}
+		}
+	}
+}
+
 func structName(t types.Type) string {
+	if n, ok := t.(*types.Named); ok {
+		if n.Obj().Pkg() != nil && n.Obj().Parent() != n.Obj().Pkg().Scope() {
+			if st, ok := n.Underlying().(*types.Struct); ok {
+				if c, ok := structCanon[st]; ok {
+					return c
+				}
+			}
+		}
+	}
+	return structName0(t)
+}
+
+func structName0(t types.Type) string {
 	if n, ok := t.(*types.Named); ok {
 		name := n.Obj().Name()
 		if n.Obj().Pkg() != nil && n.Obj().Pkg().Path() != "github.com/go-openapi/spec" {
@@ -650,7 +687,21 @@ func (u *Universe) mapComps(m *types.Map) (dom, val string, ks, vs string) {
 		u.comps = append(u.comps, val)
 		u.declConst(val+"_0", u.compSort[val])
 	}
+	u.mapLen(m)
 	return
+}
+
+// mapLen: the component holding len(m) for maps of this type (one partition per map type, like MD_/MV_)
+func (u *Universe) mapLen(m *types.Map) string {
+	ml := "ML_" + sanitize(u.sortOf(m.Key())) + "_" + sanitize(u.sortOf(m.Elem()))
+	if _, ok := u.compSort[ml]; !ok {
+		u.compSort[ml] = "(Array Int Int)"
+		u.comps = append(u.comps, ml)
+		u.declConst(ml+"_0", "(Array Int Int)")
+		u.decls = append(u.decls, fmt.Sprintf("(assert (forall ((a Int)) (! (>= (select %s_0 a) 0) :pattern ((select %s_0 a)))))", ml, ml))
+		u.decls = append(u.decls, fmt.Sprintf("(assert (= (select %s_0 0) 0))", ml))
+	}
+	return ml
 }
 
 // State maps heap component -> current SMT term (a constant name).  Components that were not touched
